@@ -227,6 +227,59 @@ def sphericalAxis (sq : Rat → Rat) (r ct st cp sp : Rat) (axis : V3) : V3 :=
 def frameE1 (ev : V3) (aux : Rat) : V3 := ⟨ev.x / aux * ev.z, ev.y / aux * ev.z, -aux⟩
 def frameE2 (ev : V3) (aux : Rat) : V3 := ⟨-(ev.y / aux), ev.x / aux, 0⟩
 
+/-! ### the axis as an OBJECT with a history (`Vector` = storage + `dimension`)
+
+`Rotation_Matrix` and `Spherical_Coordinates` receive a `Vector` object.  What the class exposes
+(`Size()`, `operator[]`, `==`, `Dot`) is the first `dimension` entries of the storage; `Scaled_Norm`
+(hence `Norm`, `Normalize`, `Normalized`) iterates over the *storage* (`components.size()`).  The two agree
+because every operation keeps `storage.length = dimension` (`VecObj.WF`, theorems in LpProofs/C16). -/
+
+structure VecObj where
+  dimension : Nat
+  storage : List Rat
+  deriving Repr
+
+namespace VecObj
+/-- `Vector(std::vector<double> entries)` -/
+def ofList (l : List Rat) : VecObj := ⟨l.length, l⟩
+/-- `Vector(dim, entry)` / `Assign(dim, entry)` -/
+def assign (_ : VecObj) (d : Nat) (e : Rat) : VecObj := ⟨d, List.replicate d e⟩
+/-- `Resize(dim)`: `dimension = dim; components.resize(dim)` — truncates, or appends zeros -/
+def resize (o : VecObj) (d : Nat) : VecObj := ⟨d, o.storage.take d ++ List.replicate (d - o.storage.length) 0⟩
+/-- `v[i] = x` for `i < dimension` (otherwise the C++ stops with a diagnostic: unchanged here) -/
+def set (o : VecObj) (i : Nat) (x : Rat) : VecObj :=
+  if i < o.dimension then ⟨o.dimension, o.storage.set i x⟩ else o
+/-- copy constructor and `operator=`: both fields are copied -/
+def copy (o : VecObj) : VecObj := ⟨o.dimension, o.storage⟩
+/-- what `Size()` / `operator[]` expose -/
+def visible (o : VecObj) : List Rat := o.storage.take o.dimension
+/-- `Norm()` as coded: `Scaled_Norm` runs over `components.size()` entries -/
+def normCoded (sq : Rat → Rat) (o : VecObj) : Rat := normL sq o.storage
+/-- the class invariant -/
+def WF (o : VecObj) : Prop := o.storage.length = o.dimension
+/-- the 3-vector handed to the geometry routines; `none` = not a 3-vector (diagnostic in the C++) -/
+def axis3 (o : VecObj) : Option V3 :=
+  match o.visible, o.dimension with
+  | [a, b, c], 3 => some ⟨a, b, c⟩
+  | _, _ => none
+end VecObj
+
+/-- the object histories exercised by the harness (`c16.rot3h`, `c16.sphaxh`): all end in the 3-vector `(a,b,c)`.
+    `ex` are extra entries used as hidden tail / junk. -/
+def axisHistory (kind : Nat) (a b c : Rat) (ex : List Rat) : VecObj :=
+  let direct := VecObj.ofList [a, b, c]
+  let shrunk := (VecObj.ofList ([a, b, c] ++ ex)).resize 3
+  match kind with
+  | 0 => direct
+  | 1 => shrunk
+  | 2 => (((VecObj.ofList ([a, b, c] ++ ex)).resize 2).resize 3).set 2 c
+  | 3 => ((((VecObj.ofList ex).assign 3 0).set 0 a).set 1 b).set 2 c
+  | 4 => shrunk.copy            -- `w = shrunk` (operator=) on an object that held `ex` before
+  | 5 => shrunk.copy            -- copy constructor
+  | 6 => direct                 -- slice of a longer std::vector handed to the constructor
+  | 7 => ((VecObj.ofList [a, b]).resize 3).set 2 c
+  | _ => direct                 -- arithmetic on a shrunk vector builds a fresh one from its visible entries
+
 /-! ### a concrete `sq` for the driver: exact on rational squares, otherwise rounded down to
     a relative precision of about 2^-k (validated numerical oracle, not used by any theorem) -/
 
